@@ -579,6 +579,8 @@ type grpKind struct {
 	name string // "" unnamed, else name or number
 }
 
+var groupPatternsAllModes = map[string]bool{}
+
 // groupPatterns enumerates patterns mixing unnamed, named, explicitly numbered and duplicate-named groups.
 func groupPatterns(tier string) []string {
 	kinds := []grpKind{{"", ""}, {"?<x>", "x"}, {"?<y>", "y"}, {"?<3>", "3"}, {"?<7>", "7"}, {"?<x1>", "x1"}, {"?'q'", "q"}, {"?<2>", "2"}}
@@ -596,6 +598,15 @@ func groupPatterns(tier string) []string {
 	for _, s := range []string{`(a)(?<2>b)(?<3>c)(?<n>a)`, `(?<2>a)(?<3>b)(?<x>c)`, `(a)(?<2>b)(?<3>c)(?<4>a)(?<n>b)(c)`, `(?<1>a)(?<2>b)(?<n>c)`, `(?<n>a)(?<2>b)(?<3>c)(b)`,
 		`(a)(b)(?<3>c)(?<4>a)(?<x>b)(?<y>c)`, `(?<3>a)(?<2>b)(?<1>c)(?<n>a)`, `(?<2>a)|(?<3>b)|(?<n>c)|(a)`} {
 		add(s)
+	}
+	// ExplicitCapture switched on and off inside the pattern: unnamed groups in its scope do not count,
+	// named ones do, and numbering continues after the scope
+	for _, s := range []string{`(?n:(?<x>a))(b)`, `(?n)(?<x>a)(?-n)(b)(c)`, `(?n:(a))(b)`, `(a)(?n:(b)(?<x>c))(a)`, `((?n)(a)(?<x>b))(c)`, `(?n:(?<x>a)(b))(?<y>c)(a)`,
+		`(?n:(a)(?<x>b))(?<x>c)(a)`, `(a)(?n)(b)(?<y>c)(?-n)(a)`, `(?n:(?<y>a)|(b))(c)`, `(?-n:(a))(?<x>b)`, `(?n:(?-n:(a))(b))(c)`} {
+		add(s)
+	}
+	for _, s := range out {
+		groupPatternsAllModes[s] = true // the hand-written ones above run under every mode in both tiers
 	}
 	for i, k1 := range kinds {
 		add(g(k1, "a"))
@@ -715,7 +726,7 @@ func init() {
 					o  int
 					co string
 				}{{0, ""}, {0, "o"}, {patterns.OptRE2, ""}, {patterns.OptN, ""}, {patterns.OptE, ""}} {
-					if tier != "thorough" && k > 0 && (i+seed)%4 != k-1 {
+					if tier != "thorough" && k > 0 && (i+seed)%4 != k-1 && !groupPatternsAllModes[p] {
 						continue
 					}
 					order := cfg.co == "o" || cfg.o&patterns.OptE != 0
@@ -937,6 +948,21 @@ func init() {
 					}
 				}
 			}
+			// more than nine groups: multi-digit group references, also under the ECMAScript rule
+			// (longest run of digits that names an existing group)
+			for _, pt := range []string{`()()()()()()()()()(a)(b)?`, `(?<k>a)()()()()()()()()()(?<12>b)?`} {
+				for _, o := range []int{0, patterns.OptE, patterns.OptRTL} {
+					if o == patterns.OptE && strings.Contains(pt, "<12>") {
+						continue // ECMAScript group names are identifiers
+					}
+					for _, rep := range []string{"<$10>", "$11$10", "$12", "$100", "$1$2", "${10}0", "$9$10x", "$010", "${k}$13"} {
+						for n := 0; n <= maxN-1; n++ {
+							us = append(us, Unit{ID: fmt.Sprintf("C09/%s/o%d/%s/n%d", pt, o, rep, n), Harness: "replace",
+								Params: map[string]string{"pattern": pt, "options": itoa(o), "copts": "", "n": itoa(n), "rep": rep, "repk": "0", "key_extra": rep}})
+						}
+					}
+				}
+			}
 			return us
 		},
 		Rule:      "For each (pattern, direction, replacement, n): subject = string of n symbolic scalars; startAt in [-1,len] and count in [-1,2] are solver variables (case-split); the replacement is a fixed string from the $-grammar or k symbolic bytes over the alphabet {$,{,},0,1,2,a,&,`,',+,_,x}; on every feasible path Replace equals the fold over FindStringMatchStartingAt/FindNextMatch with an independent $-expander, ReplaceFunc with that expander equals Replace, Replace with $& is the identity, Split pieces re-joined with the matched texts rebuild the input.",
@@ -1122,6 +1148,17 @@ func init() {
 			for n := 0; n <= maxN-1; n++ {
 				us = append(us, Unit{ID: fmt.Sprintf("C10/escape/n%d", n), Harness: "argsescape", Domain: "full", PathBudget: 100000,
 					Params: map[string]string{"pattern": "(a)(?<n>b)", "options": "0", "copts": "", "n": itoa(n), "key_extra": "escape"}})
+			}
+			// each of Escape / Unescape / replacement-pattern parsing alone on longer arbitrary byte strings
+			// (an escape followed by a lone trailing backslash needs three bytes)
+			for _, part := range []string{"unesc", "esc"} {
+				for n := maxN; n <= maxN+1; n++ {
+					if part == "esc" && n > maxN {
+						continue
+					}
+					us = append(us, Unit{ID: fmt.Sprintf("C10/escape-%s/n%d", part, n), Harness: "argsescape", Domain: "full", PathBudget: 200000,
+						Params: map[string]string{"pattern": "(a)(?<n>b)", "options": "0", "copts": "", "n": itoa(n), "part": part, "key_extra": "escape-" + part}})
+				}
 			}
 			return us
 		},
